@@ -313,7 +313,9 @@ func ExtractAcraBlockFromData(data []byte) (int, AcraBlock, error) {
 		validMask <<= 1
 	}
 	restLength := binary.LittleEndian.Uint64(data[RestAcraBlockLengthPosition : RestAcraBlockLengthPosition+RestAcraBlockLengthSize])
-	if len(data) >= int(restLength+TagBeginSize) {
+	// the rest length must cover at least the fixed-size header and must not exceed the available data
+	// (compared as unsigned values, without adding to a value that may overflow)
+	if restLength >= AcraBlockMinSize-TagBeginSize && restLength <= uint64(len(data)-TagBeginSize) {
 		validMask <<= 1
 	}
 	_, ok := keyEncryptionBackendTypeMap[KeyEncryptionBackendType(data[KeyEncryptionKeyTypePosition])]
